@@ -317,16 +317,20 @@ def observer_chain_rules(ctx, rule_drop, rule_keep):
                     I.call_func(add, [I.construct(vao, [rng], {}, None, None)], {}, cons, None, None)
                 inst = I.construct(ins, [], {"addr": T("ADDR"), "mnemonic": mnemonic, "operands": ListV([T("TGT")])}, None, None)
                 I.call_func(cc.find_method("consume_instruction"), [inst], {}, cons, None, None)
+                I.call_func(cc.find_method("finalize"), [], {}, cons, None, None)
                 return cons
             construct = f"CompleteConsumer.consume_instruction[{label}; observers: RemoveEmptyInstructions{' + ValidAddrObserver' if with_range else ''}]"
             for path in I.explore(thunk):
                 if path.kind != "return":
                     if mnemonic.is_concrete() and mnemonic.text() == "call":
                         continue        # int() of an opaque target may raise: outside this rule
+                    if any(isinstance(k, tuple) and k[0] == "noraise" and v is False for k, v, _ in path.conds):
+                        continue        # the modelled regex timeout: outside this rule
                     ctx.fail(rule_keep, construct, f"raises {path.exc.type_name}", "consuming an instruction raises")
                     continue
-                lst = path.value.fields.get("_all_instructions_list")
-                n = len(lst.items) if isinstance(lst, ListV) and lst.absorbed is None else -1
+                # what finalize() searches is the stream: count the records in it (no reliance on private field names)
+                streams = [I.expr_of(e.kwargs.get("string")) for e in path.events if e.kind == "extern_call" and e.name.startswith("regex.")]
+                n = -1 if len(streams) != 1 else streams[0].count("|")
                 ctx.check(n == expect_records, rule_drop if expect_records == 0 else rule_keep, construct,
                           f"{n} record(s) appended", f"exactly {expect_records} record(s) reach the stream")
     # no observer removes an instruction
